@@ -24,6 +24,7 @@ func TestVfC18Startup(t *testing.T) {
 	other := ca.Issue(LeafOpts{DNSNames: []string{"y.test"}})
 	rapid.Check(t, func(t *rapid.T) {
 		block := NextIPBlock()
+		defer FreeIPBlock(block)
 		pip := block + "1"
 		n := rapid.IntRange(1, 6).Draw(t, "nServers")
 		kinds := make([]string, n)
@@ -152,6 +153,7 @@ func TestVfC18Shutdown(t *testing.T) {
 	defer vfkit.Flush()
 	rapid.Check(t, func(t *rapid.T) {
 		block := NextIPBlock()
+		defer FreeIPBlock(block)
 		pip := block + "1"
 		ca := NewCA("vf c18 shutdown")
 		leaf := ca.Issue(LeafOpts{IPs: []string{block + "2"}})
